@@ -221,3 +221,110 @@ Theorem lines_of_shape_l s pre l post :
   lines_of s = pre ++ l :: post ->
   l <> [] /\ ~ In 13 l /\ ~ In 10 (removelast l) /\ (post <> [] -> exists b, l = b ++ [10]).
 Proof. apply lines_aux_shape; auto. Qed.
+
+Local Close Scope N_scope.
+
+(* ---- every report is located at a command line of the flattened document *)
+Lemma mismatches_located v keys : forall hist e,
+  In e (mismatches hist (map (fun k => (k, v)) keys)) -> e_ctx e = Some (ctx_of v).
+Proof.
+  induction keys as [|k r IH]; intros hist e H; cbn [map mismatches] in H; [contradiction|].
+  apply in_app_or in H as [H|H]; [|apply (IH _ _ H)].
+  destruct (find (same_key k) hist); [destruct (str_eqb k s)|]; cbn in H;
+    try contradiction. destruct H as [<-|[]]. reflexivity.
+Qed.
+
+Lemma reports_located_l : forall vs hs hd hist e,
+  In e (reports hs hd hist vs) -> exists v, In v vs /\ e_ctx e = Some (ctx_of v).
+Proof.
+  induction vs as [|v r IH]; intros hs hd hist e H; cbn [reports] in H; [contradiction|].
+  destruct (v_cmd v).
+  - apply in_app_or in H as [H|H].
+    + exists v. split; [now left|]. apply (mismatches_located _ _ _ _ H).
+    + destruct (IH _ _ _ _ H) as [w [Hw He]]. exists w. split; [now right|exact He].
+  - apply in_app_or in H as [H|H].
+    + destruct hd; [|contradiction]. destruct H as [<-|[]]. exists v. split; [now left|reflexivity].
+    + destruct (IH _ _ _ _ H) as [w [Hw He]]. exists w. split; [now right|exact He].
+  - apply in_app_or in H as [H|H].
+    + destruct hs; [|contradiction]. destruct H as [<-|[]]. exists v. split; [now left|reflexivity].
+    + destruct (IH _ _ _ _ H) as [w [Hw He]]. exists w. split; [now right|exact He].
+  - destruct (IH _ _ _ _ H) as [w [Hw He]]. exists w. split; [now right|exact He].
+Qed.
+
+(* ---- every visit stands where the flattening says: in a file that exists, at a line of it
+   that command_re recognises, with the stripped text of that line *)
+Lemma expand_lines_stand (erec : str -> list visit * status) name (P : visit -> Prop) :
+  (forall g w, In w (fst (erec g)) -> P w) ->
+  forall lines k,
+  (forall i l cmd val, nth_error lines i = Some l -> match_command l = Some (cmd, val) -> cmd <> CInput ->
+                       P (mkvisit name (k + i) (strip l) cmd val)) ->
+  forall w, In w (fst (expand_lines erec name lines k)) -> P w.
+Proof.
+  intros HR. induction lines as [|l rest IH]; intros k HL w Hw; cbn [expand_lines] in Hw; [contradiction|].
+  assert (HL' : forall i l0 cmd val, nth_error rest i = Some l0 -> match_command l0 = Some (cmd, val) -> cmd <> CInput ->
+                 P (mkvisit name (S k + i) (strip l0) cmd val)).
+  { intros i l0 cmd val Hn Hm Hc. replace (S k + i) with (k + S i) by lia. apply (HL (S i) l0 cmd val Hn Hm Hc). }
+  destruct (match_command l) as [[cmd v]|] eqn:EM; [|apply (IH (S k) HL' w Hw)].
+  assert (H0 : cmd <> CInput -> P (mkvisit name k (strip l) cmd v)).
+  { intros Hc. replace k with (k + 0) at 1 by lia. apply (HL 0 l cmd v eq_refl EM Hc). }
+  destruct cmd.
+  - destruct (expand_lines erec name rest (S k)) as [vs1 s1] eqn:E. cbn [fst] in *.
+    destruct Hw as [<-|Hw]; [apply H0; discriminate|]. apply (IH (S k) HL'). rewrite E. exact Hw.
+  - destruct (expand_lines erec name rest (S k)) as [vs1 s1] eqn:E. cbn [fst] in *.
+    destruct Hw as [<-|Hw]; [apply H0; discriminate|]. apply (IH (S k) HL'). rewrite E. exact Hw.
+  - destruct (expand_lines erec name rest (S k)) as [vs1 s1] eqn:E. cbn [fst] in *.
+    destruct Hw as [<-|Hw]; [apply H0; discriminate|]. apply (IH (S k) HL'). rewrite E. exact Hw.
+  - destruct (erec v) as [vs0 s0] eqn:E0. destruct s0.
+    + destruct (expand_lines erec name rest (S k)) as [vs1 s1] eqn:E. cbn [fst] in *.
+      apply in_app_or in Hw as [Hw|Hw].
+      * apply (HR v). rewrite E0. exact Hw.
+      * apply (IH (S k) HL'). rewrite E. exact Hw.
+    + apply (HR v). rewrite E0. exact Hw.
+    + apply (HR v). rewrite E0. exact Hw.
+Qed.
+
+Lemma visits_stand_l fs : forall fuel name w, In w (fst (expand fuel fs name)) -> stands_in fs w.
+Proof.
+  induction fuel as [|f IH]; intros name w Hw; cbn [expand] in Hw; [contradiction|].
+  destruct (fs name) as [content|] eqn:EF; [|contradiction].
+  apply (expand_lines_stand (expand f fs) name (stands_in fs) (fun g w => IH g w) (lines_of content) 1); [|exact Hw].
+  intros i l cmd val Hn Hm Hc. exists content, l. cbn [v_file v_lineno v_cmd v_val v_line pred Nat.add].
+  repeat split; auto. lia.
+Qed.
+
+(* ---- Engine.make_bibliography hands on what was read *)
+Lemma make_bibliography_spec_l fuel fs top a style_arg suffix :
+  parse_aux fuel fs Strict top = Ret a ->
+  exists vd vs b,
+    find (is_cmd CBibdata) (doc_visits fuel fs top) = Some vd /\
+    find (is_cmd CBibstyle) (doc_visits fuel fs top) = Some vs /\
+    make_bibliography_args style_arg suffix a = Ret b /\
+    b_files b = map (fun f => f ++ suffix) (split_on [c_comma] (v_val vd)) /\
+    b_style b = Some (match style_arg with Some s => s | None => v_val vs end) /\
+    b_citations b = citation_keys (doc_visits fuel fs top).
+Proof.
+  intros H.
+  destruct (data_is_first_split_l _ _ _ _ _ H) as [vd [Hd1 Hd2]].
+  destruct (style_is_first_l _ _ _ _ _ H) as [vs [Hs1 Hs2]].
+  pose proof (citations_spec_l _ _ _ _ _ H) as Hc.
+  exists vd, vs. unfold make_bibliography_args. rewrite Hd2. eexists. repeat split; auto.
+  cbn [b_style]. rewrite Hs2. destruct style_arg; reflexivity.
+Qed.
+
+Lemma reported_errors_located_l fuel fs m top :
+  m <> Strict ->
+  match parse_aux fuel fs m top with
+  | Ret a | Raise _ a =>
+    forall e, In e (a_errs a) ->
+    exists v, In v (doc_visits fuel fs top) /\ e_ctx e = Some (ctx_of v) /\ stands_in fs v
+  | _ => True
+  end.
+Proof.
+  intros Hm. pose proof (errors_spec_l fuel fs m top Hm) as H.
+  destruct (parse_aux fuel fs m top) as [a|e0 a| |]; auto; intros e He; rewrite H in He;
+    destruct (reports_located_l _ _ _ _ _ He) as [v [Hv Hc]]; exists v; repeat split; auto;
+    apply (visits_stand_l fs fuel top v Hv).
+Qed.
+
+Lemma visits_stand_top fuel fs top v : In v (doc_visits fuel fs top) -> stands_in fs v.
+Proof. apply visits_stand_l. Qed.
